@@ -547,12 +547,16 @@ class ScenarioLoader:
             formatted_address = eval(address)
             os_cfg, srv_cfg, proc_cfg = self._construct_host_config(h_cfg)
             value = self._get_host_value(formatted_address, h_cfg)
+            # convert (subnet_id, host_id) string keys to tuples
+            host_firewall = {}
+            for src_address, srv_list in h_cfg[u.HOST_FIREWALL].items():
+                host_firewall[eval(src_address)] = srv_list
             hosts[formatted_address] = Host(
                 address=formatted_address,
                 os=os_cfg,
                 services=srv_cfg,
                 processes=proc_cfg,
-                firewall=h_cfg[u.HOST_FIREWALL],
+                firewall=host_firewall,
                 value=value
             )
         self.hosts = hosts
